@@ -77,6 +77,25 @@ def cmdRace : P String := do
     if cls = "harness" then return s!"DIFF C16 harness-race-{a}-{b} reports={reports.length} {feats}"
     return s!"DIFF C16 race-{a}-{b} class={cls} reports={reports.length} {feats}"
 
+/-- the enabling condition of `Tables.Step.regEnter` with the counter check in place -/
+def regEnterEnabled (running : Bool) (cc : Nat) : Bool := !running && cc == 0
+
+/-- `regguard <actions…> | <status> {<running> <conncounter> <accepted>}` -/
+def cmdRegGuard : P String := do
+  let acts ← listOf tok
+  expect "|"
+  let status ← tok
+  let obs ← listOf (do let r ← bool; let c ← nat; let a ← bool; pure (r, c, a))
+  let draining := obs.any fun (r, c, _) => !r && c > 0
+  let feats := s!"nt={if obs.length ≥ 1 && acts.length ≥ 3 then 1 else 0} acts={acts.length} attempts={obs.length} accepted={(obs.filter (·.2.2)).length} draining={draining}"
+  if status ≠ "ok" then return s!"DIFF C16 regguard-{status} {feats}"
+  for (r, c, a) in obs do
+    if a && !(regEnterEnabled r c) then
+      return s!"DIFF C16 register-accepted-while-{if r then "running" else "handlers-alive"} running={r} conncounter={c} {feats}"
+    if !a && regEnterEnabled r c then
+      return s!"DIFF C16 register-refused-on-idle-service {feats}"
+  return s!"OK {feats}"
+
 /-! ### C17 -/
 
 structure OpSpec where
@@ -237,6 +256,6 @@ def cmdCancel : P String := do
   else if which = "x" then cmdCancelX
   else throw s!"unknown cancel case {which}"
 
-def table : List (String × P String) := [("race", cmdRace), ("cancel", cmdCancel)]
+def table : List (String × P String) := [("race", cmdRace), ("regguard", cmdRegGuard), ("cancel", cmdCancel)]
 
 end Driver.Conc
